@@ -13,16 +13,17 @@ DEMO_REL=$(grep -o '[A-Za-z0-9_./-]*_test\.go' "$S/demo_path.txt" | head -1)
 RUNPAT=$(grep -o '\-run [^ ]*' "$S/demo_path.txt" | head -1 | cut -d' ' -f2 | tr -d "'\"")
 [ -z "$RUNPAT" ] && RUNPAT=$(grep -o 'func Test[A-Za-z0-9_]*' "$S/demo_test.go" | head -1 | cut -d' ' -f2)
 PKGDIR=$(dirname "$DEMO_REL")
+RACE=""; grep -q -- "-race" "$S/demo_path.txt" && RACE="-race"
 echo "demo at $DEMO_REL, run pattern $RUNPAT"
 cp "$S/demo_test.go" "$D/$DEMO_REL"
-go test -vet=off -count=1 -run "$RUNPAT" "./$PKGDIR/" > "$D/.demo_clean.log" 2>&1; R_CLEAN=$?
+go test $RACE -vet=off -count=1 -run "$RUNPAT" "./$PKGDIR/" > "$D/.demo_clean.log" 2>&1; R_CLEAN=$?
 rm "$D/$DEMO_REL"
 git init -q . 2>/dev/null
 git apply --whitespace=nowarn "$S/patch.diff" || { echo "SEED-FAIL patch does not apply to the current tree"; exit 3; }
 go build ./... > "$D/.build.log" 2>&1 || { echo "SEED-FAIL does not build"; tail -5 "$D/.build.log"; exit 3; }
 go test -vet=off -count=1 ./... > "$D/.suite.log" 2>&1; R_SUITE=$?
 cp "$S/demo_test.go" "$D/$DEMO_REL"
-go test -vet=off -count=1 -run "$RUNPAT" "./$PKGDIR/" > "$D/.demo_mut.log" 2>&1; R_MUT=$?
+go test $RACE -vet=off -count=1 -run "$RUNPAT" "./$PKGDIR/" > "$D/.demo_mut.log" 2>&1; R_MUT=$?
 echo "suite-with-change=$R_SUITE demo-with-change=$R_MUT demo-without-change=$R_CLEAN"
 if [ $R_SUITE -ne 0 ]; then grep -v '^ok\|no test files' "$D/.suite.log" | head -10; fi
 if [ $R_CLEAN -ne 0 ]; then tail -8 "$D/.demo_clean.log"; fi
